@@ -81,6 +81,9 @@ def plan(tier, seed):
     for p in range(4 if tier == 'thorough' else 2):
         specs.append(dict(kind='methods', seed=seed * 10 + p,
                           samples=4000 if tier == 'thorough' else 600))
+    # declarations in the cudd wrappers (accepted, refused, failing)
+    specs.append(dict(kind='declare', seed=seed,
+                      samples=6000 if tier == 'thorough' else 1500))
     # dd._copy.load_json against the cudd handle discipline
     for p in range(4 if tier == 'thorough' else 1):
         specs.append(dict(kind='jsonload', seed=seed * 10 + p,
@@ -337,7 +340,11 @@ def check_lifecycle(M, ops):
         elif k == 'decref' and handles and cuddish:
             h = handles[op[1] % len(handles)]
             if h[0]._ref > 0 and h[0].node is not None:
-                M.mgr.decref(h[0], recursive=bool(op[2] % 2))
+                if (op[2] >> 1) % 2:
+                    # second positional parameter: `recursive`
+                    M.mgr.decref(h[0], bool(op[2] % 2))
+                else:
+                    M.mgr.decref(h[0], recursive=bool(op[2] % 2))
                 h[1] -= 1
                 if h[0]._ref == 0:
                     nt = True
@@ -402,7 +409,7 @@ def run_lifecycle(spec, out):
         st.tuples(st.just('wrap'), st.integers(0, 3)),
         st.tuples(st.just('dealloc'), st.integers(0, 9)),
         st.tuples(st.just('incref'), st.integers(0, 9)),
-        st.tuples(st.just('decref'), st.integers(0, 9), st.integers(0, 1)),
+        st.tuples(st.just('decref'), st.integers(0, 9), st.integers(0, 3)),
         st.tuples(st.just('drop'), st.integers(0, 9)),
     ).map(list)
 
@@ -771,6 +778,89 @@ def run_zdd(spec, out):
     out.exhaustive = (spec['mode'] == 'all')
 
 
+_DECL_MODELS = {}
+
+
+def declare_case(case):
+    """`add_var` of the cudd / cudd_zdd manager classes: accepted and
+    refused declarations, also with the library call failing; no handle
+    exists, so afterwards no library reference may be left."""
+    w = case['wrapper']
+    if w not in _DECL_MODELS:
+        M_ = P.Model(w)
+        M_.extend_for_declare()
+        _DECL_MODELS[w] = M_
+    M = _DECL_MODELS[w]
+    L = M.L
+    L.count.clear()
+    L.negative = False
+    m = M.Manager()
+    m.vars = set()
+    m._index_of_var = {}
+    m._var_with_index = {}
+    model = {}
+    for k, (name, index) in enumerate(case['calls']):
+        L.calls = 0
+        L.fail_at = case.get('fail_at') if k == case.get('fail_call') \
+            else None
+        L.begin_call()
+        raised = None
+        try:
+            j = m.add_var(name, index)
+        except (ValueError, AssertionError, RuntimeError) as e:
+            raised = type(e).__name__
+        finally:
+            L.fail_at = None
+        # the documented outcome
+        if name in model:
+            ok = index is None or model[name] == index
+            want = model[name]
+        else:
+            want = len(model) if index is None else index
+            ok = want not in model.values()
+        failed_lib = (k == case.get('fail_call') and
+                      case.get('fail_at') is not None and
+                      name not in model and L.calls >= case['fail_at'])
+        if raised is None:
+            require(ok and not failed_lib, 'declare.accepted_bad_call',
+                    dict(call=[name, index]))
+            require(j == want, 'declare.wrong_index',
+                    dict(call=[name, index], got=j, want=want))
+            model[name] = want
+        else:
+            require(not ok or failed_lib, 'declare.refused_good_call',
+                    dict(call=[name, index], error=raised))
+        require(dict(m._index_of_var) == model and set(m.vars) == set(model)
+                and dict(m._var_with_index) == {v: k_ for k_, v in
+                                                model.items()},
+                'declare.tables_differ',
+                dict(index_of_var=dict(m._index_of_var), model=model))
+        require(not L.live(), 'declare.reference_leaked',
+                dict(call=[name, index], live=L.live(), raised=raised))
+        require(not L.negative, 'declare.counter_negative')
+
+
+def run_declare(spec, out):
+    r = random.Random(f'c19d:{spec["seed"]}')
+    cnt = nt = 0
+    for k in range(spec['samples']):
+        calls = []
+        for _ in range(r.randint(2, 6)):
+            name = r.choice(['x', 'y', 'z', 'w'])
+            index = r.choice([None, None, 0, 1, 2, 3, 5])
+            calls.append([name, index])
+        case = dict(kind='declarecase',
+                    wrapper=['cudd', 'cudd_zdd'][k % 2], calls=calls)
+        if k % 3 == 0:
+            case.update(fail_call=r.randrange(len(calls)), fail_at=1)
+        out.guard(case, lambda: declare_case(case))
+        cnt += 1
+        if any(i is not None for _, i in calls):
+            nt += 1
+    out.count(cnt, nt)
+    out.sample(case, force=True)
+
+
 _JSON_MODEL = []
 
 
@@ -891,6 +981,8 @@ def run_jsonload(spec, out):
 def run(spec, out):
     if spec['kind'] == 'jsonload':
         return run_jsonload(spec, out)
+    if spec['kind'] == 'declare':
+        return run_declare(spec, out)
     if spec['kind'] == 'zdd':
         return run_zdd(spec, out)
     if spec['kind'] == 'methods':
@@ -906,6 +998,10 @@ def replay_into(case, out):
         out.guard(case, lambda: method_case(
             M, case['method'], case['a'], case['b'], case['c'], case['k'],
             case.get('fail_at')))
+        out.count(1, 0)
+        return
+    if k == 'declarecase':
+        out.guard(case, lambda: declare_case(case))
         out.count(1, 0)
         return
     if k == 'jsonload':
